@@ -718,7 +718,7 @@ void World::send(int ctx, int dst, int tag, const void* data, size_t nbytes, boo
     std::shared_ptr<bool> matched = m.matched;
     std::shared_ptr<bool> read_done = m.read_done;
     bool rdv = false;
-    if (o_.rdv_pct > 0) rdv = choose(CK_RDV, 100) >= 100 - o_.rdv_pct;
+    if (o_.rdv_pct > 0 && (long)nbytes >= o_.rdv_min_bytes) rdv = choose(CK_RDV, 100) >= 100 - o_.rdv_pct;
     st_.sends++;
     if (rdv) st_.sends_rdv++;
     if (dst == me) st_.self_sends++;
